@@ -639,7 +639,16 @@ def callsite_obligations(rep, prefix='C05.drv.pre'):
                 if is_iter(call.args[0]):
                     rep.proved(oid, 'pysym', f'{recv}.parse({_ast.unparse(call.args[0])})', function=where, clause=clause)
                 else:
-                    rep.failed(oid, 'pysym', f'{recv}.parse({_ast.unparse(call.args[0])}): the argument is not known to be an iterator', function=where, clause=clause, replay=replay_callsite())
+                    # the argument is built in a way the syntactic reading does not know (a helper, a wrapper class ...): decide on the real code - the two entry
+                    # points are run with a recording parser and the object they hand to parse() is inspected (the answer does not depend on the statement)
+                    seen = spy_parse_arguments()
+                    mine = seen.get(fn.name)
+                    if mine is None:
+                        rep.undecided(oid, 'pysym', f'{recv}.parse({_ast.unparse(call.args[0])}): not recognised as an iterator and the call was not observed at run time', function=where, clause=clause)
+                    elif all(mine):
+                        rep.proved(oid, 'pysym', f'{recv}.parse({_ast.unparse(call.args[0])}): observed on the real code: iter(arg) is arg in {len(mine)} call(s)', function=where, clause=clause)
+                    else:
+                        rep.failed(oid, 'pysym', f'{recv}.parse({_ast.unparse(call.args[0])}): the argument is not an iterator (observed on the real code: iter(arg) is not arg)', function=where, clause=clause, replay=replay_callsite())
     if n == 0:
         rep.undecided(f'{prefix}.callsites', 'pysym', 'no call of <parser>.parse found in mindsdb_sql/__init__.py', function='mindsdb_sql')
 
@@ -657,3 +666,46 @@ def replay_callsite():
             if bad and any(b in sug for b in bad):
                 return {'input': sql, 'dialect': 'mindsdb', 'fires': True, 'observed': f'suggestions {sug}', 'expected': 'only suggestions that let parsing proceed (")")'}
     return {'input': None, 'observed': 'no stock input shows it'}
+
+
+def spy_parse_arguments():
+    """runs parse_sql and ErrorHandling.query_is_valid of the real library with a parser object that only records whether the object it is given is an
+    iterator (iter(x) is x).  -> {caller function name: [bool, ...]}"""
+    import sys as _sys
+    import mindsdb_sql as M
+    from sly.lex import Token
+    out = {}
+
+    class Spy:
+        error_info = {'tokens': [], 'bad_token': None, 'expected_tokens': []}
+
+        def __init__(self, who):
+            self.who = who
+
+        def parse(self, arg, *a, **k):
+            try:
+                ok = iter(arg) is arg
+            except TypeError:
+                ok = False
+            out.setdefault(self.who, []).append(ok)
+            return object()
+    orig = M.get_lexer_parser
+    try:
+        for d in ('mindsdb', 'mysql', 'sqlite'):
+            lexer, _parser = orig(d)
+            M.get_lexer_parser = lambda dialect, lexer=lexer: (lexer, Spy('parse_sql'))
+            try:
+                M.parse_sql('select 1', dialect=d)
+            except Exception:
+                pass
+    finally:
+        M.get_lexer_parser = orig
+    try:
+        lexer, parser = orig('mindsdb')
+        eh = M.ErrorHandling(lexer, Spy('query_is_valid'))
+        t = Token()
+        t.type, t.value, t.index, t.lineno, t.end = 'ID', 'a', 0, 1, 1
+        eh.query_is_valid([t, t])
+    except Exception:
+        pass
+    return out
